@@ -165,7 +165,10 @@ def _random_body(ch: core.Chooser, depth: int, budget_: List[int]) -> List[dict]
             (1 if depth else 0, "leave"), (2 if depth < 4 else 0, "genblock"), (1 if depth < 4 else 0, "decorated"),
         ])
         if kind == "block":
-            body.append({"k": "block", "kw": _kw(c.sub("kw"), 0, 3), "body": _random_body(c.sub("b"), depth + 1, budget_)})
+            node = {"k": "block", "kw": _kw(c.sub("kw"), 0, 3), "body": _random_body(c.sub("b"), depth + 1, budget_)}
+            if c.chance(0.2):
+                node["deferred"] = _kw(c.sub("def"), 1, 2)
+            body.append(node)
         elif kind == "set":
             body.append({"k": "set", "kw": _kw(c.sub("kw"))})
         elif kind == "set_invalid":
@@ -188,7 +191,10 @@ def _random_body(ch: core.Chooser, depth: int, budget_: List[int]) -> List[dict]
             body.append({"k": "genblock", "kw": _kw(c.sub("kw"), 0, 3), "body": _random_body(c.sub("b"), depth + 1, budget_),
                          "end": c.choice(["close", "throw", "exhaust"]), "exc": c.choice(EXC_NAMES)})
         elif kind == "decorated":
-            body.append({"k": "decorated", "kw": _kw(c.sub("kw"), 0, 3), "body": _random_body(c.sub("b"), depth + 1, budget_)})
+            node = {"k": "decorated", "kw": _kw(c.sub("kw"), 0, 3), "body": _random_body(c.sub("b"), depth + 1, budget_)}
+            if c.chance(0.4):
+                node["again"] = _kw(c.sub("again"), 1, 2)
+            body.append(node)
     return body
 
 
@@ -368,12 +374,18 @@ class Interp:
 
     def _block(self, node: dict) -> Optional[str]:
         nid = node.get("id")
+        cm = self.np.global_options(**node["kw"])
+        if node.get("deferred"):
+            # the manager object exists before these steps run; scoping starts when it is entered
+            self.nontrivial = True
+            self.np.set_options(**node["deferred"])
+            self.model.update(node["deferred"])
+            self.check(nid, "after-deferred-set", "set_options")
         snapshot = dict(self.model)
         result: Optional[str] = None
-        unwound = 0
         try:
             for _once in (0,):
-                with self.np.global_options(**node["kw"]) as yielded:
+                with cm as yielded:
                     self.model.update(node["kw"])
                     self.depth += 1
                     self._yielded = yielded
@@ -464,7 +476,19 @@ class Interp:
             self.model = snapshot
             self.check(nid, "after-decorated-exit", "global_options")
             self._sync_if_bad()
-        # decorated functions must be reusable: a second call behaves the same
+        # a decorated function is reusable: after the surrounding options changed, a second
+        # call must scope against the options in force at *that* call
+        if node.get("again"):
+            self.np.set_options(**node["again"])
+            self.model.update(node["again"])
+            snapshot2 = dict(self.model)
+            try:
+                body()
+            finally:
+                self.depth -= 1 if self.depth else 0
+                self.model = snapshot2
+                self.check(nid, "after-second-decorated-exit", "global_options")
+                self._sync_if_bad()
         return None
 
     def _get_mutate(self, node: dict) -> Optional[str]:
